@@ -213,4 +213,78 @@ CHECKS = {
              "thorough": {"checks": 300, "shards": 16, "timeout": 5400, "shrink": "60s"}},
         ],
     },
+    "C09": {
+        "level": "exploration",
+        "rule": "rapid-generated cases: a block tree with wallet transactions, a start block given in five ways, optional start time / end block, initial watch keys and inputs, and 2-16 operations (chain extension, reorganisation of any depth, fetch failures of filters or blocks, Update with AddAddrs / AddInputs / Rewind, sleeps, parking the rescan inside its k-th backend call and releasing it, deferred notifications) against the public Rescan over a generated ChainSource and a real blockntfns.SubscriptionManager in a synctest bubble. Oracle inside the callbacks: every connected block is the child of the current one, every disconnect names the current one, delivered transactions include the reference matcher's set for the watch state the rescan must have had, and at the end the walker stands on the backend's best block. Non-trivial = a fetch failure was actually served to the rescan, or a disconnect step or an Update happened while the rescan was parked inside a backend call or had blocks waiting for a retry; distinct = distinct case JSON",
+        "assumptions": [
+            "interleavings are produced by parking the rescan inside backend calls and by deferring notifications, never by racing goroutines, so cases replay exactly",
+            "a rescan goroutine that returns with an error (fetch failure during catch-up, Subscribe above a transiently shorter tip, header lookup of a removed block on rewind) is classified, not failed",
+        ],
+        "units": [
+            {"name": "rescan", "module": "harness", "pkg": "./checks/c09", "test": "TestC09", "tags": "verif",
+             "quick": {"checks": 1200, "shards": 16, "timeout": 600},
+             "thorough": {"checks": 30000, "shards": 16, "timeout": 3600, "shrink": "60s"}},
+        ],
+    },
+    "C10": {
+        "level": "exploration",
+        "rule": "rapid-generated cases on a client with pre-filled stores: a chain with ordinary spends, create-and-spend in one block, multi-output transactions and re-spends; 1-6 GetUtxo requests (unspent / spent / same-block / re-spent / multi-output / out-of-range index / never-created outpoints; start at birth, zero, before, between, at the spend, after, tip, above the tip; duplicates, same outpoint with another start, sibling outputs) and 0-24 events (issue request, release k withheld peer answers, new block, new block while answers are released, advance time, cancel, stop, blocks nobody serves). Peers withhold every getcfilters / getdata answer until released, so a running scan is parked at a known height when the next request arrives. Oracle: a reference fate-of-outpoint function computed from the serialised blocks (earliest spend at height >= start; else the output if the start block creates it; else empty) for every admissible chain end; an error only after stop / cancel / a withheld answer; every call returns. Non-trivial = a request was enqueued while an earlier one was outstanding and the scanner was parked on a withheld answer, or two issued requests concern outputs of one transaction; distinct = distinct case JSON",
+        "assumptions": NETSIM_ASSUME + [
+            "requests with a start height above the client's best block carry no liveness assertion (the batch manager polls until the chain gets there); their answers are still checked",
+            "new blocks only extend the chain (no reorganisation during a scan)",
+        ],
+        "units": [
+            {"name": "netsim", "module": "harness", "pkg": "./checks/c10", "test": "TestC10", "tags": "verif",
+             "quick": {"checks": 20, "shards": 16, "timeout": 900, "shrink": "15s"},
+             "thorough": {"checks": 400, "shards": 16, "timeout": 5400, "shrink": "60s"}},
+        ],
+    },
+    "C16": {
+        "level": "exploration",
+        "rule": "(sequential) rapid-generated operation sequences on the real LRU cache (capacity 0-10; put with sizes 0 / small / cap/2 / cap / cap+1 and unsizeable values, replacement with another size, get, delete, LoadAndDelete, the three range iterations with early stop, poisoning a resident value so that its Size() fails) compared after every operation with a slice-based reference LRU on Len, Size, residency, recency and iteration order, results and evicted flags; a failed operation must leave the cache usable (the next operation returns). (interleavings) a generated warm-up plus 2-3 concurrent operations whose every interleaving at the yield points around the index accesses is enumerated depth-first by a scheduler; each schedule's results and final state must equal those of some sequential order on the reference LRU. Non-trivial = (sequential) the sequence made the cache evict at least once; (interleavings) two concurrent operations touch the same key or an eviction happens in some order; distinct = distinct case JSON",
+        "assumptions": [
+            "where an operation needs the size of a poisoned resident value every consistent outcome is accepted and adopted as the new model state",
+            "interleavings are enumerated at the granularity of the verif-tag yield points (after the index lookup, before/after the list section) of Put, Get and LoadAndDelete, for 2-3 operations",
+        ],
+        "units": [
+            {"name": "sequential", "module": "harness-cache", "pkg": "./c16", "test": "TestC16Seq", "tags": "verif",
+             "quick": {"checks": 3000, "shards": 8, "timeout": 600},
+             "thorough": {"checks": 60000, "shards": 8, "timeout": 3600, "shrink": "60s"}},
+            {"name": "interleavings", "module": "harness-cache", "pkg": "./c16", "test": "TestC16Conc", "tags": "verif",
+             "quick": {"checks": 150, "shards": 8, "timeout": 600},
+             "thorough": {"checks": 3000, "shards": 8, "timeout": 3600, "shrink": "60s"}},
+        ],
+    },
+}
+
+def _race_units():
+    """C18: the race detector as oracle over reduced budgets of the other checks' generated executions."""
+    want = {"C01": (6, 20), "C03": (5, 16), "C04": (4, 14), "C05": (5, 16), "C06": (5, 16), "C09": (200, 4000),
+            "C11": (300, 6000), "C12": (200, 4000), "C15": (300, 6000), "C17": (4, 14), "C19": (6, 20)}
+    units = []
+    for pid, (q, th) in want.items():
+        if pid not in CHECKS:
+            continue
+        for u in CHECKS[pid]["units"]:
+            if u["name"].endswith("checkpointed"):
+                continue
+            r = dict(u)
+            r["name"] = "race-" + pid.lower() + "-" + u["name"]
+            r["race"] = True
+            r["gomaxprocs"] = 8
+            r["quick"] = {"checks": q, "shards": 4, "timeout": 900, "shrink": "5s"}
+            r["thorough"] = {"checks": th, "shards": 8, "timeout": 5400, "shrink": "5s"}
+            units.append(r)
+    return units
+
+
+CHECKS["C18"] = {
+    "level": "exploration",
+    "detect_race": True,
+    "rule": "the test binaries of the C01, C03, C04, C05, C06, C09, C11, C12, C15, C17 and C19 checks are rebuilt with -race and a reduced budget of their rapid-generated executions is run (GOMAXPROCS 8, several shards); the oracle is the Go race detector: any report with a frame in neutrino code is a violation, a report between harness frames only is a harness error. evaluations = executions run under the detector; non-trivial = executions the underlying check classifies as non-trivial (every network-simulation execution runs the block handler, the filter-header handler, the peer handlers, the query dispatcher and the harness callers concurrently); distinct = distinct case JSON per unit",
+    "assumptions": [
+        "the detector only sees races that occur in an explored execution",
+        "property violations reported by the underlying checks are ignored here (they belong to those properties)",
+    ],
+    "units": _race_units(),
 }
